@@ -388,7 +388,8 @@ fn run_case(case: &str) -> String {
                 (Err(e), _) | (_, Err(e)) => return err_case(e),
             };
             let dim = u16::from_str_radix(dims, 16).unwrap_or(0);
-            let t = if *k == "V" { vec_t(e.clone(), dim) } else { list_t(e.clone()) };
+            // Q: the 4th field selects the collection type the cells are bound to (0 = list, 1 = set)
+            let t = if *k == "V" { vec_t(e.clone(), dim) } else if dim == 1 { set_t(e.clone()) } else { list_t(e.clone()) };
             typed::run_cells(carrier, &t, &e, &cells).unwrap_or_else(err_case)
         }
         ["E", carrier, ts, hx] => {
@@ -567,7 +568,9 @@ fn main() {
             85..=87 => emit(&mut out, typed::gen_cells_case(&mut r)),
             // typed decoders on intact / corrupted encodings and null cells
             88..=90 => {
-                if let Some(c) = typed::gen_decode_case(&mut r, &mutate) {
+                if r.chance(1, 6) {
+                    emit(&mut out, typed::gen_null_elem_case(&mut r));
+                } else if let Some(c) = typed::gen_decode_case(&mut r, &mutate) {
                     emit(&mut out, c);
                 }
             }
